@@ -12,7 +12,7 @@ import sys
 import types
 
 from . import core
-from .core import SB, SI, SR, HarnessError, ite, land, lnot, lor, sabs, smax, smin
+from .core import SB, SF, SI, SR, HarnessError, ite, land, lnot, lor, sabs, smax, smin
 
 try:
     import z3
@@ -126,6 +126,8 @@ def _coerce(v, dt):
     if dt.kind == "i":
         return _trunc_int(v)
     if dt.kind == "f":
+        if isinstance(v, SF):
+            return v.to(32 if dt == float32 else 64)
         if isinstance(v, SI):
             return SR(z3.ToReal(v.e))
         if isinstance(v, SB):
@@ -1075,6 +1077,8 @@ def array_equal(a, b):
 
 
 def _finite1(v):
+    if isinstance(v, SF):
+        return lnot(lor(v.isnan(), v.isinf()))
     if isinstance(v, SR):
         return True if v.bad is None else SB(z3.Not(v.bad))
     if core.is_sym(v):
